@@ -81,7 +81,7 @@ pub fn run_into(ctx: &Ctx, col: &mut Collector, with_lines: bool) -> Result<()> 
 	}
 	let _ = std::fs::remove_dir_all(&dir);
 	// model correspondence for directories and ids
-	if with_lines { crate::pmcorr::lines(col, &mut rng, &[], ctx.thorough); }
+	if with_lines { crate::pmcorr::lines(col, &mut rng, &[], ctx.thorough); let nd = std::fs::canonicalize(&ctx.out)?; crate::naming::lines(col, &mut rng, &nd, if ctx.thorough { 3000 } else { 300 }); }
 	for x in &viol { col.violation(&x.kind, &x.input, &x.input, &x.detail); }
 	for (k, v) in stats { col.bump(&k, v); }
 	Ok(())
